@@ -620,7 +620,10 @@ def run(ctx, shard):
         k = it % 7
         if k == 6:
             dims = [(2, 3), (3, 2)][(it // 7) % 2]
-            r = int(rng.integers(1, 5))
+            # deterministic rank schedule: rank>=2 first (rank 1 makes several index slips invisible: a seed-dependent miss of the
+            # wide-A-branch mutant showed that a random rank can come out as 1 for the only (3,2) case of the quick tier)
+            r = [2, 3, 4, 1, 3, 2, 1, 4][(it // 7) % 8]
+            rng.integers(1, 5)  # keep the random stream aligned with earlier runs
             return f'random rank {r}', dims, ginibre_state(rng, 6, r), r
         if k < 4:
             return f'random rank {k + 1}', (2, 2), ginibre_state(rng, 4, k + 1), k + 1
